@@ -10,6 +10,7 @@ import (
 	"os"
 	"regexp"
 	"sort"
+	"strconv"
 	"strings"
 
 	"golang.org/x/tools/go/ssa"
@@ -524,6 +525,12 @@ func (g *FuncGen) appendBuiltin(cc *ssa.CallCommon, res ssa.Value, in ssa.Instru
 		c.useQuant = true
 		c.assert(fmt.Sprintf("(forall ((i %s)) (=> %s (= (select %s i) (select %s %s))))", i64,
 			and(g.le64(c.intLit64(0, 64), "i"), g.lt64("i", slen)), ga, oldData, g.add64(fmt.Sprintf("(s_off %s)", s.T), "i")))
+		// ground instances of the copy fact for the first few positions: short slices built by a handful of
+		// appends are then decided without quantifier instantiation
+		for i := 0; i < 4; i++ {
+			ii := c.intLit64(int64(i), 64)
+			c.assert(implies(g.lt64(ii, slen), eq(fmt.Sprintf("(select %s %s)", ga, ii), fmt.Sprintf("(select %s %s)", oldData, g.add64(fmt.Sprintf("(s_off %s)", s.T), ii)))))
+		}
 		grown = ga
 		for j := 0; j < k; j++ {
 			ev := fmt.Sprintf("(select (select %s (s_arr %s)) %s)", heap, e.T, g.add64(fmt.Sprintf("(s_off %s)", e.T), c.intLit64(int64(j), 64)))
@@ -1616,11 +1623,18 @@ func (g *FuncGen) runGhostAt(callee string, ord int, env *Env, results []Val) {
 		if os.Getenv("GOVC_LOOPS") != "" && g.curInstr != nil {
 			fmt.Fprintf(os.Stderr, "CALL %s: %s#%d at %s\n", g.fnName, ga.Callee, ord, g.prog.Fset.Position(g.curInstr.Pos()))
 		}
+		if ga.Ordinal != 0 {
+			// the contract picks this call site by ordinal: remember how many sites carry that name (the
+			// baseline keeps the count; a different count later means the ordinals may have shifted)
+			if g.anchors == nil {
+				g.anchors = map[string]string{}
+			}
+			if n, _ := strconv.Atoi(g.anchors["calls "+ga.Callee]); ord > n {
+				g.anchors["calls "+ga.Callee] = fmt.Sprint(ord)
+			}
+		}
 		if ga.Ordinal != 0 && ga.Ordinal != ord {
 			continue
-		}
-		if ga.Ordinal != 0 && g.curInstr != nil {
-			g.anchor(fmt.Sprintf("call %s#%d", ga.Callee, ord), g.curInstr.Pos())
 		}
 		// ghost statements see the callee's parameters/results and, where not shadowed, the caller's parameters
 		gst := g.cur
@@ -1675,21 +1689,55 @@ func (g *FuncGen) runGhostAt(callee string, ord int, env *Env, results []Val) {
 		// ... and the caller's locals whose (single) definition dominates the call site
 		cb := g.curBlock
 		genv.look = func(name string) (Val, bool) {
+			// The binding in force at the call: the LAST source-level reference to the variable (definition or
+			// use - go/ssa records both) among those that every path to the call passes through.  If some
+			// path passes through a later reference that binds a different value (the variable was reassigned
+			// in a branch), the name is refused: the contract must capture the value in a ghost variable.
 			var best *nameBinding
+			curIdx := 1 << 30
+			if g.curInstr != nil {
+				if ix, ok := g.instrIdx[g.curInstr]; ok {
+					curIdx = ix
+				}
+			}
+			dominates := func(nb *nameBinding) bool {
+				if nb.block == cb {
+					return nb.idx < curIdx
+				}
+				return nb.block.Dominates(cb)
+			}
+			usable := func(nb *nameBinding) bool {
+				if _, defined := g.vals[nb.val]; !defined && valueBlock(nb.val) != nil {
+					return false
+				}
+				return true
+			}
 			for i := range g.names[name] {
 				nb := &g.names[name][i]
-				vb := valueBlock(nb.val)
-				if vb == nil || vb == cb || vb.Dominates(cb) {
-					if _, defined := g.vals[nb.val]; !defined && vb != nil {
-						continue
-					}
-					if best == nil || (valueBlock(best.val) != nil && vb != nil && valueBlock(best.val).Dominates(vb)) {
-						best = nb
-					}
+				if !usable(nb) || !dominates(nb) {
+					continue
+				}
+				if best == nil || (best.block == nb.block && best.idx < nb.idx) || (best.block != nb.block && best.block.Dominates(nb.block)) {
+					best = nb
 				}
 			}
 			if best == nil {
 				return Val{}, false
+			}
+			if !best.isAddr {
+				anc := g.ancestorsOf(cb)
+				for i := range g.names[name] {
+					nb := &g.names[name][i]
+					if nb == best || nb.isAddr || !anc[nb.block.Index] || dominates(nb) || nb.val == best.val {
+						continue
+					}
+					if nb.block == cb && nb.idx >= curIdx {
+						continue
+					}
+					if best.block == nb.block || best.block.Dominates(nb.block) {
+						g.unsup("ghost statement uses %q, which is reassigned on some path to this call: capture its value in a ghost variable (stale-contract?)", name)
+					}
+				}
 			}
 			if best.isAddr {
 				// address-taken local (e.g. captured by a closure): its current value is read from its cell
